@@ -154,6 +154,12 @@ def runSolve (c : Case) : List String := Id.run do
             let st := kvGetD rest "status" "" == "YES"
             let cs := kvGetD rest "cert" "-"
             .acc st (if cs == "-" then none else some (parseExt cs))
+        if af.n > 12 then
+          -- the reference deciders are exponential: larger frameworks are covered by the trace
+          -- correspondence with the (proved) solver programs only
+          if members then out := "verdict unjudged" :: out
+          else out := "verdict BAD certificate members are not the framework's own arguments" :: out
+        else
         match checkAnswer af qq a with
         | .ok _ =>
           if members then out := "verdict ok" :: out
